@@ -1,6 +1,8 @@
 CONSTANTS
   Subs = {1, 2, 3}
   RegisterBeforeInit = FALSE
+  Literal = {}
+  ReleaseOnRefusal = TRUE
   Streaming = {}
 INIT GenInit
 NEXT GenNext
